@@ -5,7 +5,7 @@ package fasthttp
 // Contracts for fs.go, checked by /verif/gocv (comment-only; compiled to nothing).
 
 //@ func ParseByteRange
-//@   property C24
+//@   property C24 C08
 //@   requires contentLength >= 0
 //@   ensures[ordered]  err == nil ==> 0 <= startPos && startPos <= endPos && endPos < contentLength
 //@   ensures[prefix]   err == nil ==> hasPrefix(byteRange, "bytes=")
